@@ -533,22 +533,26 @@ class RESI(Command):
         Allowed residue numbers is now from -999 to 9999 (2017/1)
         """
         alpha = re.compile('[a-zA-Z]')
+        # A residue number may be zero or negative, so its value does not tell whether it was read already:
+        number_seen = False
         # The first item is the RESI keyword itself:
         for x in resi[1:]:
             if alpha.search(x):
                 if ':' in x:
                     # contains ":" thus must be a chain-id+number
                     self.chain_id, self.residue_number = x.split(':')[0], int(x.split(':')[1])
+                    number_seen = True
                 else:
                     # contains letters, must be a name (class)
                     self.residue_class = x
             else:
                 # everything else can only be a number
-                if self.residue_number > 0:
+                if number_seen:
                     self.alias = int(x)
                 else:
                     try:
                         self.residue_number = int(x)
+                        number_seen = True
                     except ValueError:
                         self.residue_number = 0
         return self.residue_class, self.residue_number, self.chain_id, self.alias
